@@ -153,7 +153,9 @@ SAFE_METHODS = {
     "buckets", "parameters",
 }
 SAFE_NAMES = {"enumerate", "len", "isinstance", "issubclass", "type", "zip", "range", "sorted", "list", "dict", "tuple", "set", "frozenset", "str", "repr", "bool", "any", "all", "reversed", "print", "iter", "id", "abs", "hasattr", "callable", "int", "f", "signature", "wraps", "takewhile", "super"}
-SAFE_QUALIFIED = {"iso8601.parse_date", "logging.getLogger", "itertools.takewhile", "re.compile", "re.escape", "str.isdecimal", "str.isalpha", "str.isdigit"}
+SAFE_QUALIFIED = {"iso8601.parse_date", "logging.getLogger", "itertools.takewhile", "re.compile", "re.escape", "str.isdecimal", "str.isalpha", "str.isdigit",
+                  # clocks and counters: no argument, nothing to be malformed
+                  "time.perf_counter", "time.monotonic", "time.time", "time.process_time", "time.perf_counter_ns", "time.monotonic_ns", "time.time_ns", "datetime.now", "datetime.utcnow", "datetime.datetime.now", "itertools.count"}
 
 
 def external_calls(prog, rep):
@@ -485,6 +487,12 @@ def check(prog, rep):
     typed_arguments(prog, rep)
     bucket_guard(prog, rep)
     implicit_raises(prog, rep)
+    # expressions that raise a built-in error whenever they are evaluated (integer format code on a float, text + number)
+    from ..rules_raise import certain_raises
+
+    for f_ in [x for x in prog.funcs.values() if x.mod.name in ("aw_query.query2", "aw_query.functions")]:
+        for n_, why in certain_raises(f_):
+            rep.violation("IMPLICIT-RAISE", f_.short, f"{norm(n_)[:40]} (raises by construction)", f"{why}: a {'ValueError' if 'ValueError' in why else 'TypeError'} leaves the query engine instead of one of the query errors", f_.loc(n_))
     external_calls(prog, rep)
     one_shot_iterators(prog, rep)
     guarded_lookups(prog, rep)
